@@ -46,9 +46,10 @@ Dec(v) == IF v >= 900 THEN 899 - v ELSE v      \* cfg files cannot hold negative
 \* (flag set and width are part of the initial state only to spread TLC's work: all successors of one state are computed by one worker)
 Init == st \in {[fn |-> "init", f |-> fn, cv |-> cv, fi |-> fi, w |-> w] : fn \in Fns, cv \in Convs, fi \in FlagSets, w \in {Dec(v) : v \in Widths}}
 
-(* shapes: 1 = <dir>   2 = "a" <dir> "n"   3 = "%%" <dir>   4 = <dir> " %d"   5 = "%%" <text of dir without its %> *)
+(* shapes: 1 = <dir>   2 = "a" <dir> "n"   3 = "%%" <dir>   4 = <dir> " %d"   5 = "%%" <text of dir without its %>   6 = "a%1$" <rest of dir> *)
 Build(shape, d) == CASE shape = 1 -> d [] shape = 2 -> <<97>> \o d \o <<110>> [] shape = 3 -> <<37, 37>> \o d [] shape = 4 -> d \o <<32, 37, 100>>
                      [] shape = 5 -> <<37, 37>> \o Tail(d)         \* an escaped percent followed by the directive's text: all literals
+                     [] shape = 6 -> <<97, 37, 49, 36>> \o Tail(d)  \* "a%1$<flags><width>...": the numbered-argument spelling of the directive
 Next ==
   /\ st.fn = "init"
   /\ \E p \in {Dec(v) : v \in Precs}, ln \in Lens, shape \in Shapes, loc \in {0, 1}, rel \in {0, 1, 3} :
@@ -68,6 +69,7 @@ Next ==
                /\ (cv \in {99, 115} => ln \in {"", "l"}) /\ (cv = 37 => ln = "") /\ (cv = 110 => ln # "L")
                /\ (cv = 37 => (fi = 0 /\ w = -1 /\ p = -1))             \* "%%" is the complete specification
                /\ (shape = 5 => (w # -2 /\ p # -2))
+               /\ (shape = 6 => (w # -2 /\ p # -2 /\ cv # 37))       \* (a numbered directive takes all its arguments by number: no plain '*')
                /\ st' = [fn |-> st.f, fmt |-> fmt, at |-> at, av |-> av, loc |-> loc, dmax |-> IF tl + rel = 0 THEN 1 ELSE tl + rel, tlen |-> tl,
                          shape |-> shape, fi |-> fi, w |-> w, p |-> p, ln |-> ln, cv |-> cv]
 (* ---- scanf formats for C09: pre-piece, an n directive (or its escaped text), post-piece; the input text is
@@ -77,9 +79,10 @@ ScanPre == << <<>>, <<37, 100>>, <<37, 37>>, <<97>>, <<37, 42, 100>>, <<37, 51, 
               <<37, 91, 97, 45, 122, 93>>, <<37, 91, 94, 93, 93>>, <<37, 91, 93, 93>>, <<37, 91, 93, 37, 110, 93>>, <<37, 42, 91, 94, 93, 93>>, <<37, 91, 94, 93, 120, 93>> >>
 ScanPreInp == << <<>>, <<49, 50>>, <<37>>, <<97>>, <<55>>, <<120, 121, 122>>, <<37, 37>>, <<97, 98>>, <<113>>, <<93>>, <<110>>, <<113>>, <<113>> >>
 ScanPreArgs == << <<>>, <<7>>, <<>>, <<>>, <<>>, <<7>>, <<>>, <<7>>, <<7>>, <<7>>, <<7>>, <<>>, <<7>> >>
-ScanN == << <<37, 110>>, <<37, 108, 110>>, <<37, 104, 104, 110>>, <<37, 108, 108, 110>>, <<37, 53, 110>>, <<37, 42, 110>>, <<37, 37, 110>>, <<110>>, <<37, 104, 110>>, <<37, 106, 110>> >>
-ScanNHas == <<TRUE, TRUE, TRUE, TRUE, TRUE, FALSE, FALSE, FALSE, TRUE, TRUE>>
-ScanNInp == << <<>>, <<>>, <<>>, <<>>, <<>>, <<>>, <<37, 110>>, <<110>>, <<>>, <<>> >>
+ScanN == << <<37, 110>>, <<37, 108, 110>>, <<37, 104, 104, 110>>, <<37, 108, 108, 110>>, <<37, 53, 110>>, <<37, 42, 110>>, <<37, 37, 110>>, <<110>>, <<37, 104, 110>>, <<37, 106, 110>>,
+           <<37, 49, 36, 110>>, <<37, 49, 36, 108, 110>> >>      \* the last two: "%1$n" "%1$ln"
+ScanNHas == <<TRUE, TRUE, TRUE, TRUE, TRUE, FALSE, FALSE, FALSE, TRUE, TRUE, TRUE, TRUE>>
+ScanNInp == << <<>>, <<>>, <<>>, <<>>, <<>>, <<>>, <<37, 110>>, <<110>>, <<>>, <<>>, <<>>, <<>> >>
 ScanPost == << <<>>, <<32, 37, 100>> >>
 NextScan ==
   /\ st.fn = "init" /\ st.cv = 110 /\ st.fi = 0 /\ st.w = -1
